@@ -116,6 +116,10 @@ DML = [
     ('insert_partial', "INSERT INTO t1 (id, a) VALUES (9, 1)"),
     ('insert_expr', "INSERT INTO t1 (id, a, x) VALUES (9 + 1, -1, 2 * 3)"),
     ('insert_str', "INSERT INTO t1 (id, a, x) VALUES (9, 'it''s', 'x')"),
+    ('insert_twins', "INSERT INTO t1 (id, a, x) VALUES (1, 1, 0), (2, 1.0, 0.0), (3, '1', '1.0')"),
+    ('insert_twins_rev', "INSERT INTO t1 (id, a, x) VALUES (1.0, 2.0, 0.0), (1, 2, 0)"),
+    ('insert_bool_twins', "INSERT INTO t1 (id, a, x) VALUES (1, TRUE, 0), (2, 1, FALSE)"),
+    ('update_twins', "UPDATE t1 SET a = 1.0, x = 1 WHERE id = 1"),
     ('insert_select', "INSERT INTO t1 (id, a, x) SELECT t2.id, t2.b, t2.y FROM t2 WHERE t2.b = 1"),
     ('insert_select_join', "INSERT INTO t3 (id, c) SELECT t1.id, t2.b FROM t1 LEFT JOIN t2 ON t1.id = t2.id"),
     ('update_all', "UPDATE t1 SET a = 5"),
